@@ -37,6 +37,10 @@
 //!       server history (`srv.`): the same `Grpc` value has first served a call that
 //!         1 was refused (unsupported grpc-encoding)   2 offered nothing and sent identity
 //!         3 failed in the handler
+//!   web server (`srv.`): the call arrives as a grpc-web call (binary) through `tonic_web::GrpcWebLayer` in front of the
+//!         same `server::Grpc`: 1 over HTTP/1.1   2 over HTTP/2.  The layer translates the request and the response;
+//!         what the server negotiates hangs on the `grpc-encoding` / `grpc-accept-encoding` the CALLER sent - a
+//!         browser client that offers nothing gets identity (seed C05g: the layer inventing an offer)
 //!   ic  `gen.` only: 1 client built by `with_interceptor`, server wrapped in `InterceptedService`
 //!         (pass-through interceptors)   2 the interceptors also add a metadata entry
 use bytes::Bytes;
@@ -58,10 +62,11 @@ pub struct Knobs {
     pub cl: u32,
     pub wr: u32,
     pub ic: u32,
+    pub web: u32,
 }
 
 thread_local! {
-    static KNOBS: Cell<Knobs> = const { Cell::new(Knobs { ms: 0, bs: 0, cut: 0, xh: 0, pd: 0, og: 0, cl: 0, wr: 0, ic: 0 }) };
+    static KNOBS: Cell<Knobs> = const { Cell::new(Knobs { ms: 0, bs: 0, cut: 0, xh: 0, pd: 0, og: 0, cl: 0, wr: 0, ic: 0, web: 0 }) };
 }
 
 thread_local! {
@@ -102,6 +107,7 @@ pub fn parse(tok: &str) -> Option<Knobs> {
             "cl" => k.cl = v,
             "wr" => k.wr = v,
             "ic" => k.ic = v,
+            "web" => k.web = v,
             _ => return None,
         }
     }
@@ -349,6 +355,7 @@ fn random_knobs(rng: &mut Rng, side: u8) -> String {
             (1 | 2, 5) => ("og", rng.range(1, 4) as u32),
             (1, 6) => ("cl", rng.range(1, 3) as u32),
             (0, 7) => ("wr", rng.range(1, 4) as u32),
+            (0, 8) => ("web", rng.range(1, 3) as u32),
             (1, 7) => ("wr", rng.range(1, 5) as u32),
             (3, _) => ("ic", rng.range(1, 3) as u32),
             _ => ("ms", rng.range(1, 5) as u32),
@@ -364,7 +371,7 @@ pub fn generate(tier: &str, rng: &mut Rng, out: &mut Vec<String>) {
     let thorough = tier == "thorough";
 
     // ---- every knob value on its own × the informative base cases × shapes (× routes)
-    let srv_knobs: Vec<(&str, u32)> = [("ms", 1..=4), ("bs", 1..=5), ("cut", 1..=6), ("pd", 1..=1), ("wr", 1..=3)]
+    let srv_knobs: Vec<(&str, u32)> = [("ms", 1..=4), ("bs", 1..=5), ("cut", 1..=6), ("pd", 1..=1), ("wr", 1..=3), ("web", 1..=2)]
         .into_iter()
         .flat_map(|(n, r)| r.map(move |v| (n, v)))
         .chain([1u32, 2, 4, 8, 16, 32, 63].into_iter().map(|v| ("xh", v)))
